@@ -262,6 +262,14 @@ def check(prog, run):
     run.rule("R-handover", "dialog result = (sel_freq, partner list) for SSI/pLSCF, (sel_freq, None) for FDD", 3)
     ci = prog.cls(CLS)
     f = rel(prog.mods[ci.mod].path)
+    # the list that runs parallel to sel_freq is known to these rules by its attribute name; a dialog that keeps it under another name and
+    # offers the old names as properties is not read (the attribute the rules would follow is never touched directly)
+    aliased = sorted(p_ for p_ in set(MODES.values()) | {MAIN} if p_ in ci.methods)
+    if aliased:
+        for r_ in ("R-lockstep", "R-pick", "R-handover"):
+            run.ob(r_, ci.qual, "selection lists", None, f"`{aliased[0]}` is a property of the dialog (an alias for a list kept under another name): the rules that follow "
+                   f"`self.{aliased[0]}` do not read this form", file=f, node=ci.node)
+        return
     # ---------------- lockstep
     for mode, partner in MODES.items():
         lists = (MAIN, partner)
